@@ -85,3 +85,15 @@ Fixpoint el_chunks_fuel (fuel reps c : nat) : list nat :=
   | S f => if (reps =? 0)%nat then [] else if (reps <=? c)%nat then [reps] else c :: el_chunks_fuel f (reps - c) c
   end.
 Definition el_pool_chunks (reps procs : nat) : list nat := el_chunks_fuel reps reps (el_chunksize reps procs).
+
+(* ---------- the solver's own random stream (RandomSolver: one random.Random owned by the solver object) ----------
+   The policy handed to evaluate() is a bound method of ONE solver object.  Sequentially the object lives on, so repetition j
+   starts where repetition j-1 stopped.  Under Pool.starmap the object is pickled with every chunk of tasks: inside a chunk
+   the unpickled copy is shared by the chunk's tasks, every chunk starts from the parent's (never advanced) state.
+   A repetition that plays L steps consumes L draws.  Start positions of the repetitions in the solver's stream: *)
+Fixpoint el_solver_seq (reps L pos : nat) : list nat :=
+  match reps with
+  | O => []
+  | S r => pos :: el_solver_seq r L (pos + L)
+  end.
+Definition el_solver_par (chunks : list nat) (L : nat) : list nat := flat_map (fun c => el_solver_seq c L 0) chunks.
